@@ -29,6 +29,19 @@ type FailStore struct {
 	FailNext int // number of upcoming Store calls that fail
 	Stores   int
 	Hook     func() // called at the beginning of Store (scheduling point for E3)
+	// KeepImage makes Store serialise the catalog exactly as FileStore does; Image is the file content of the last
+	// successful Store (a byte image cannot be reached by later in-place writes to the catalog, a pointer can)
+	KeepImage bool
+	Image     []byte
+}
+
+// LoadImage decodes Image like FileStore.Load does.
+func (s *FailStore) LoadImage() (*lungo.Catalog, error) {
+	var f lungo.File
+	if err := bson.Unmarshal(s.Image, &f); err != nil {
+		return nil, err
+	}
+	return f.BuildCatalog()
 }
 
 // Load implements lungo.Store.
@@ -43,6 +56,13 @@ func (s *FailStore) Store(c *lungo.Catalog) error {
 	if s.FailNext > 0 {
 		s.FailNext--
 		return ErrInjected
+	}
+	if s.KeepImage {
+		buf, err := bson.Marshal(lungo.BuildFile(c))
+		if err != nil {
+			return err
+		}
+		s.Image = buf
 	}
 	s.Catalog = c
 	return nil
